@@ -48,6 +48,24 @@ def impl_linecol(text, offsets, fresh):
     return out
 
 
+def enc(s):
+    return "t:" + ",".join(str(ord(c)) for c in s)
+
+
+def impl_linecol_seq(text, offsets):
+    """every offset, in this order, on ONE context object: the first call builds the cached line table"""
+    ctx = Parser.Context(text)
+    return " ".join(lc(ctx.linecol, p) for p in offsets)
+
+
+def impl_junk_message(text, s, e):
+    """the whole text of Junk.error_message() for the span (s, e)"""
+    try:
+        return enc(Junk(Parser.Context(text), (s, e)).error_message())
+    except Exception as ex:
+        return "X" + type(ex).__name__
+
+
 def impl_entity(text, s, e, vs, ve, off):
     """position / value_position of an Entity built directly over the given spans"""
     ctx = Parser.Context(text)
@@ -119,6 +137,8 @@ def entry_positions(e, fluent):
             rec["obs"].append(["error_message", s0, type(ex).__name__])
         return "J %s m=%s" % (p, m), rec
     vsp = getattr(e, "val_span", None)
+    if vsp is None and k == "C":
+        rec["raw_none"] = e.raw_val is None         # Entry.raw_val of an entry without a value span
     if fluent and k == "E":
         v = "%s %s %s" % (lc(e.value_position), lc(e.value_position, -1), lc(e.value_position, mid))
         tgt = vsp[0] if vsp else e.key_span[1]
@@ -157,16 +177,43 @@ def impl_file_positions(fmt, text):
     return {"canon": " | ".join(["done"] + shown), "recs": recs, "body": body}
 
 
+def impl_noctx(fmt):
+    """walk() of a parser that has not read anything: no context, nothing to position"""
+    p = get_parser(fmt)
+    return [len(list(p.walk())), len(list(p.walk(only_localizable=True)))]
+
+
+def impl_android_positions(text):
+    """Android objects carry no spans: position / value_position of every entry of strings.xml"""
+    p = get_parser("android")
+    p.readUnicode(text)
+    out = []
+    for e in p.walk():
+        rec = {"cls": type(e).__name__, "k": kind_of(e), "pos": [], "msg": None}
+        for off in (-1, 0, 3):
+            rec["pos"].append([off, lc(e.position, off), lc(e.value_position, off) if hasattr(e, "value_position") else "none"])
+        if isinstance(e, Junk):
+            mm = JUNK_RE.search(e.error_message())
+            rec["msg"] = ",".join(mm.groups()) if mm else "nomatch"
+        out.append(rec)
+    return out
+
+
 # ------------------------------------------------------------------ checkers, compare, lint
 class Rec:
     """observer recording what ContentComparer reports"""
 
-    def __init__(self):
+    def __init__(self, rv="error"):
         self.events = []
+        self.rv = rv
+        self.n = 0
 
     def notify(self, category, file, data):
-        self.events.append([category, data])
-        return "error"
+        self.events.append([category, data if isinstance(data, (str, type(None))) else "%s" % (data,)])
+        self.n += 1
+        if self.rv == "mixed":
+            return ("error", "ignore", "warning")[self.n % 3]
+        return self.rv
 
     def updateStats(self, file, stats):
         pass
@@ -218,8 +265,8 @@ def _own_checks(fmt, ref, l10n):
                 lst.append({"tp": tp, "pos": _posdesc(pos), "msg": msg, "cat": cat})
         except Exception as ex:
             lst.append({"exc": type(ex).__name__, "excmsg": str(ex)[:200]})
-        out[key] = {"ent": _entdesc(e), "checks": lst, "refkey": r.key}
-    return out, l10ns
+        out["%s" % (key,)] = {"ent": _entdesc(e), "checks": lst, "refkey": "%s" % (r.key,)}
+    return out, l10ns, refs
 
 
 def _own_lint(fmt, text):
@@ -239,7 +286,7 @@ def _own_lint(fmt, text):
             key = e.key
         except Exception:
             key = None
-        rec = {"k": k, "span": [e.span[0], e.span[1]], "key": key if isinstance(key, str) else repr(key), "checks": []}
+        rec = {"k": k, "span": [e.span[0], e.span[1]], "key": "%s" % (key,), "checks": []}
         if k != "J":
             rec["ent"] = _entdesc(e)
             try:
@@ -251,29 +298,35 @@ def _own_lint(fmt, text):
     return out
 
 
-def impl_compare(fmt, ref, l10n, base=None):
-    """the real ContentComparer.compare on two files + the real checker results, aligned per key"""
+def impl_compare(fmt, ref, l10n, base=None, merge=False, rv="error"):
+    """the real ContentComparer.compare on two files + the real checker results, aligned per key;
+    `merge`: with a merge file (skips are collected); `rv`: what the observer answers"""
     from compare_locales.compare.content import ContentComparer
     from compare_locales.paths import File
+    from collections import Counter
     d = tempfile.mkdtemp(prefix="verif-c17-", dir=base)
     try:
         os.makedirs(os.path.join(d, "ref"))
         os.makedirs(os.path.join(d, "l10n"))
         rp = os.path.join(d, "ref", FNAME[fmt])
         lp = os.path.join(d, "l10n", FNAME[fmt])
+        mp = os.path.join(d, "merge", FNAME[fmt]) if merge else None
         with open(rp, "w", encoding="utf-8", newline="") as f:
             f.write(ref)
         with open(lp, "w", encoding="utf-8", newline="") as f:
             f.write(l10n)
         cc = ContentComparer()
-        rec = Rec()
+        rec = Rec(rv)
         cc.observers.append(rec)
         exc = None
         try:
-            cc.compare(File(rp, FNAME[fmt], locale=None), File(lp, FNAME[fmt], locale="de"), None)
+            import contextlib
+            import io
+            with contextlib.redirect_stdout(io.StringIO()):      # merge prints "adding to …"
+                cc.compare(File(rp, FNAME[fmt], locale=None), File(lp, FNAME[fmt], locale="de"), mp)
         except Exception as ex:
             exc = "%s: %s" % (type(ex).__name__, str(ex)[:200])
-        own, l10ns = _own_checks(fmt, ref, l10n)
+        own, l10ns, refs = _own_checks(fmt, ref, l10n)
     finally:
         shutil.rmtree(d, ignore_errors=True)
     events = [ev for ev in rec.events if ev[0] in ("error", "warning") and isinstance(ev[1], str)]
@@ -282,7 +335,57 @@ def impl_compare(fmt, ref, l10n, base=None):
     for e in l10ns:
         if isinstance(e, Junk):
             junk.append({"span": [e.span[0], e.span[1]]})
-    return {"exc": exc, "own": own, "events": events, "junk": junk, "cls": _cls(fmt)}
+    def dups(ents):
+        c = Counter("%s" % (e.key,) for e in ents)
+        return sorted([k, n] for k, n in c.items() if n > 1)
+    return {"exc": exc, "own": own, "events": events, "junk": junk, "cls": _cls(fmt),
+            "ref_dups": dups(refs), "l10n_dups": dups(l10ns), "all_events": len(rec.events)}
+
+
+def impl_compare_broken(kind, base=None):
+    """compare on files the comparer cannot handle: no parser for the extension / a side that cannot be read"""
+    from compare_locales.compare.content import ContentComparer
+    from compare_locales.paths import File
+    d = tempfile.mkdtemp(prefix="verif-c17-", dir=base)
+    try:
+        name = "a.unknown-ext" if kind == "noparser" else "a.properties"
+        rp, lp = os.path.join(d, "ref-" + name), os.path.join(d, "l10n-" + name)
+        for pth, unread in ((rp, kind == "ref-unreadable"), (lp, kind == "l10n-unreadable")):
+            if unread:
+                os.makedirs(pth)             # a directory: readFile raises
+            else:
+                with open(pth, "w", encoding="utf-8") as f:
+                    f.write("k0=v\n")
+        cc = ContentComparer()
+        rec = Rec()
+        cc.observers.append(rec)
+        exc = None
+        try:
+            import contextlib
+            import io
+            with contextlib.redirect_stdout(io.StringIO()):
+                cc.compare(File(rp, name, locale=None), File(lp, name, locale="de"),
+                           os.path.join(d, "merge", name) if kind == "noparser" else None)
+        except Exception as ex:
+            exc = "%s: %s" % (type(ex).__name__, str(ex)[:200])
+        return {"exc": exc, "events": [[c, isinstance(x, str)] for c, x in rec.events]}
+    finally:
+        shutil.rmtree(d, ignore_errors=True)
+
+
+def impl_lint_broken(base=None):
+    """lint_file on a path that cannot be read: reported like compare, at line 1, column 1"""
+    from compare_locales.lint.linter import L10nLinter
+    d = tempfile.mkdtemp(prefix="verif-c17-", dir=base)
+    try:
+        path = os.path.join(d, "a.properties")
+        os.makedirs(path)
+        try:
+            return {"results": [[r["lineno"], r["column"], r["level"]] for r in L10nLinter().lint_file(path, None, None)]}
+        except Exception as ex:
+            return {"exc": type(ex).__name__}
+    finally:
+        shutil.rmtree(d, ignore_errors=True)
 
 
 def impl_lint(fmt, text, ref, base=None):
